@@ -28,8 +28,10 @@ func Keys(backend string) []string {
 }
 
 var (
-	strPool   = []string{"abc", "abd", "xyz", "ab", "", "c", "abcabc"}
-	intPool   = []int64{-3, 0, 5, 7, 100, 2}
+	// strings that mean something to some layer (JSON quoting, escapes, literals, multi-byte runes) among plain ones
+	strPool = []string{"abc", "abd", "xyz", "ab", "", "c", "abcabc", `a"b`, `b\c`, "né", "null", "{x}", "true"}
+	// integers of every magnitude class the accessors treat alike or differently (int32 edge, beyond float32, 2^40)
+	intPool = []int64{-3, 0, 5, 7, 100, 2, 2147483647, -2147483649, 16777217, 1099511627776}
 	milliPool = []int64{0, 1500, -2500, 2000, 7000, 5000, 1}
 	listPool  = []string{"a[]", "a[x]", "a[x,y]", "a[abc,xyz,q]"}
 )
@@ -170,7 +172,7 @@ func GenLeaf(r *rand.Rand, st *CondStats) string {
 		return fmt.Sprintf("[F:%s:%d]", pick(r, []string{"feq", "fgt", "fge", "flt", "fle"}), pick(r, milliPool))
 	case 5, 6, 7:
 		st.WellTyped++
-		return fmt.Sprintf("[S:%s:%s]", pick(r, []string{"sa", "co", "sw", "ew"}), pick(r, []string{"abc", "ab", "c", "b", "xyz", "", "bc"}))
+		return fmt.Sprintf("[S:%s:%s]", pick(r, []string{"sa", "co", "sw", "ew"}), pick(r, []string{"abc", "ab", "c", "b", "xyz", "", "bc", `a"b`, "né", "null", `\\`}))
 	case 8:
 		st.WellTyped++
 		return fmt.Sprintf("[S:in:%s]", pick(r, []string{"abc;xyz", "ab", "abd;q;abc", "zz;yy"}))
